@@ -289,6 +289,25 @@ theorem mergeAux_inv (O : Oracle) : ∀ (fuel : Nat) (s : X) (dest src : Nat),
           · rename_i r hne; exact h2
         · rename_i r hne; exact h1
 
+theorem relinkAux_inv (O : Oracle) (fuel : Nat) (s : X) (x : Nat) (h : P s.h) :
+    P (relinkAux O fuel s x).1.h := by
+  induction fuel generalizing s with
+  | zero => exact h
+  | succ fuel ih =>
+    unfold relinkAux
+    split
+    · exact h
+    · rename_i t0 _
+      have h1 := cleanIfLinked_inv (fun h p x => hP h (.remove p x)) O fuel s x h
+      split
+      · rename_i s1 heq; rw [heq] at h1
+        have h2 := mergeAux_inv hP O fuel s1 x t0 h1
+        split
+        · rename_i s2 heq2; rw [heq2] at h2; exact h2
+        · rename_i s2 heq2; rw [heq2] at h2; exact h2
+        · rename_i s2 out _ _ heq2; rw [heq2] at h2; exact ih s2 h2
+      · rename_i r hne; exact h1
+
 theorem setLinkAux_inv (O : Oracle) (fuel : Nat) (s : X) (x : Nat) (v : LinkVal) (h : P s.h) :
     P (setLinkAux O fuel s x v).1.h := by
   unfold setLinkAux
@@ -302,7 +321,17 @@ theorem setLinkAux_inv (O : Oracle) (fuel : Nat) (s : X) (x : Nat) (v : LinkVal)
       have h1 := cleanIfLinked_inv (fun h p x => hP h (.remove p x)) O fuel s x h
       split
       · rename_i s1 heq; rw [heq] at h1
-        exact mergeAux_inv hP O fuel _ x t h1
+        have h2 := mergeAux_inv hP O fuel s1 x t h1
+        split
+        · rename_i s2 heq2; rw [heq2] at h2; exact h2
+        · rename_i s2 heq2; rw [heq2] at h2; exact h2
+        · rename_i s2 out _ _ heq2; rw [heq2] at h2
+          split
+          · have h3 := relinkAux_inv hP O fuel s2 x h2
+            split
+            · rename_i s3 heq3; rw [heq3] at h3; exact h3
+            · rename_i r hne; exact h3
+          · exact h2
       · rename_i r hne; exact h1
 
 theorem stepX_inv (fuel : Nat) (s : X) (O : Oracle) (op : XOp) (h : P s.h) :
